@@ -410,6 +410,8 @@ func Run(r *fw.Run) {
 	// provers over readers that hand out their own memory (zero-copy store, memoised answers): proofs stay
 	// correct and the reader's memory is not written to
 	c09.Aliasing(r)
+	// overlapping prover calls (every interleaving at the reader callbacks), also after failed calls
+	c09.Overlap(r)
 }
 
 // sentinelWorld is a second closed world built around the zero hash: base hashes {zero, a, b}, every
@@ -518,6 +520,10 @@ func Replay(r *fw.Run, raw json.RawMessage) {
 	r.Sample(c)
 	if c.Kind == "aliasing" {
 		c09.Aliasing(r)
+		return
+	}
+	if c.Kind == "overlap" {
+		c09.Overlap(r)
 		return
 	}
 	if c.Note == "honest" {
